@@ -7,6 +7,9 @@ from maflib.validation import ValidationStringency as VS
 
 BASIC = "gdc-1.0.0"
 CHROMS = ["1", "2", "10", "X", "chr1", "chr2", "chr10", "chrX", "MT"]
+# more than ten names: ranks 10+ only order correctly when compared as numbers
+LONG = [str(i) for i in range(1, 13)] + ["X"]
+LONG_CHR = ["chr" + x for x in LONG]
 
 
 def typed_record(rng, tumor="T1", normal="N1", chrom="1", start=10, end=12, ann=BASIC, extra=None):
